@@ -308,6 +308,9 @@ func c18Scenario(c *Ctx, r *common.Rng, run int) *Scenario {
 		if r.Chance(4, 5) {
 			line += " " + c18Titles[r.Intn(len(c18Titles))]
 		}
+		if r.Chance(1, 150) {
+			line += " " + strings.Repeat("a very long title ", 4000) // 72,000 characters on one line
+		}
 		sb.WriteString(line)
 		if i < n-1 || r.Chance(4, 5) {
 			sb.WriteString("\n")
